@@ -116,20 +116,22 @@ func hIndexesInStep09(s *Silences) bool {
 	return true
 }
 
-// VerifC09_Converge: 3 versions over 2 ids with distinct update times delivered to
-// two instances in different orders / batchings with duplicates: same silences with
+// VerifC09_Converge: 3 (quick) / 4 (thorough) versions over 2 ids with distinct update
+// times delivered to one instance one by one and to another in any permutation cut into
+// any batches, with duplicates: same silences with
 // the same content on both, indexes in step, same query answers; re-merging known
 // data changes nothing and triggers no gossip.
 //
-//vf:bounds unwind=8 decisions=300
+//vf:quick unwind=8 decisions=300 paths=600000
+//vf:thorough unwind=10 decisions=500 paths=8000000
 //vf:expect reach=converged
 func VerifC09_Converge() {
 	ids := []string{"idA", "idB"}
-	vals := []string{"a", "b", "c"}
-	const n = 3
-	var es [n]*pb.MeshSilence
-	var upd [n]time.Time
-	var idx [n]int
+	vals := []string{"a", "b", "c", "d"}
+	n := 3 + vfTier()
+	es := make([]*pb.MeshSilence, n)
+	upd := make([]time.Time, n)
+	idx := make([]int, n)
 	for i := 0; i < n; i++ {
 		upd[i] = hT09("upd")
 		idx[i] = vfChoice("id", 2)
@@ -172,16 +174,25 @@ func VerifC09_Converge() {
 	vfAssert("duplicate-no-gossip", g1 == before)
 	vfAssert("duplicate-no-version-bump", s1.Version() == v1)
 
-	perm := [][3]int{{0, 1, 2}, {0, 2, 1}, {1, 0, 2}, {1, 2, 0}, {2, 0, 1}, {2, 1, 0}}[vfChoice("perm", 6)]
-	if vfBool("batched") {
-		vfAssume(idx[perm[0]] != idx[perm[1]]) // a full-state batch has one entry per id
-		vfAssert("merge-ok", s2.Merge(enc(perm[0], perm[1])) == nil)
-		vfAssert("merge-ok", s2.Merge(enc(perm[2])) == nil)
-	} else {
-		for _, i := range []int{perm[0], perm[1], perm[2], perm[0]} {
-			vfAssert("merge-ok", s2.Merge(enc(i)) == nil)
+	// instance 2: an arbitrary permutation cut into arbitrary batches (a full-state batch
+	// has one entry per id), then the first delivered entry once more
+	perms := hPerms09(n)
+	perm := perms[vfChoice("perm", len(perms))]
+	var batch []int
+	for pos, i := range perm {
+		batch = append(batch, i)
+		// (quick tier: only the first two may share a batch)
+		if pos == n-1 || (vfTier() == 0 && pos > 0) || vfBool("cut") {
+			for x := 0; x < len(batch); x++ {
+				for y := x + 1; y < len(batch); y++ {
+					vfAssume(idx[batch[x]] != idx[batch[y]])
+				}
+			}
+			vfAssert("merge-ok", s2.Merge(enc(batch...)) == nil)
+			batch = nil
 		}
 	}
+	vfAssert("merge-ok", s2.Merge(enc(perm[0])) == nil)
 	for k := 0; k < 2; k++ {
 		best := -1
 		for i := 0; i < n; i++ {
@@ -255,4 +266,19 @@ func VerifC09_Propagate() {
 	vfAssert("expired-on-both", getState(ga[0], vfNow()) == SilenceStateExpired && getState(gb[0], vfNow()) == SilenceStateExpired)
 	vfAssert("same-end", ga[0].EndsAt.AsTime().Equal(gb[0].EndsAt.AsTime()))
 	vfReach("expired-propagated")
+}
+
+// hPerms09: all permutations of 0..n-1.
+func hPerms09(n int) [][]int {
+	if n == 0 {
+		return [][]int{{}}
+	}
+	var out [][]int
+	for _, p := range hPerms09(n - 1) {
+		for pos := 0; pos <= len(p); pos++ {
+			q := append(append(append([]int{}, p[:pos]...), n-1), p[pos:]...)
+			out = append(out, q)
+		}
+	}
+	return out
 }
